@@ -160,4 +160,60 @@ theorem entry_chains_cover_the_callers :
     (pageReaderCalls.map (·.1)).all (fun fn => entryChains.any (·.2.contains fn)) = true ∧
     entryChains.all (fun c => c.2.all (fun fn => (pageReaderCalls.map (·.1)).contains fn)) = true := by decide
 
+/-! ## one layer further up: the callers of value / row readers (`rowReaderCalls`)
+
+OPEN: "every call to `ReadValues` / `ReadRows` / `readRows` hands a failure on". Not provable from a
+per-block decision list: several callers leave their loop on an error and return it afterwards, or
+store it in a field (`rowGroupRows.ReadRows`: `r.err = err`) and report it on the next call; a few are
+in-memory readers no page-load error reaches. What is checked instead is the verdict of every site in
+the situation "failure, nothing delivered" — pinned, so that a site turning from handing the error
+on to swallowing it (or a new caller) breaks this obligation; the sites that leave the loop or are
+unresolved are tied by L1 only (`rows-*`, `generic-*`, `reader-*`, `copy-rows`, `value-reader-*`). -/
+
+def verdictName : Verdict → String
+  | .handsOn => "hands-on" | .swallows => "swallows" | .leaves => "leaves-loop" | .unresolved => "unresolved"
+
+def siteVerdict (site : Site) : String :=
+  let form := site.2.2.1
+  if form = "tail" then "hands-on"
+  else if form = "assign" || form = "if-init" then verdictName (verdict (failed true) site.2.2.2)
+  else form
+
+theorem row_reader_verdicts_partial :
+    rowReaderCalls.map (fun s => (s.1, s.2.1, siteVerdict s)) = [
+      ("GenericReader.ReadRows", "ReadRows", "hands-on"),
+      ("GenericReader.readRows", "ReadRows", "leaves-loop"),
+      ("PrintRowGroup", "ReadRows", "hands-on"),
+      ("Reader.Read", "ReadRows", "hands-on"),
+      ("Reader.ReadRows", "ReadRows", "hands-on"),
+      ("bufferedRowReader.read", "ReadRows", "swallows"),
+      ("bufferedRowReader.read", "ReadRows", "leaves-loop"),
+      ("columnChunkValueReader.ReadValues", "ReadValues", "hands-on"),
+      ("concatenatingRows.ReadRows", "ReadRows", "hands-on"),
+      ("concatenatingRowsWrapper.ReadRows", "ReadRows", "hands-on"),
+      ("concatenatingRowsWrapper.SeekToRow", "ReadRows", "hands-on"),
+      ("convertedRows.ReadRows", "ReadRows", "hands-on"),
+      ("convertedValueReader.ReadValues", "ReadValues", "hands-on"),
+      ("copyColumnValues", "ReadValues", "unresolved"),
+      ("copyRows", "ReadRows", "hands-on"),
+      ("copyValues", "ReadValues", "hands-on"),
+      ("decimalPage.Bounds", "ReadValues", "leaves-loop"),
+      ("dedupeRowReader.ReadRows", "ReadRows", "hands-on"),
+      ("filterRowReader.ReadRows", "ReadRows", "leaves-loop"),
+      ("forwardRowSeeker.ReadRows", "ReadRows", "hands-on"),
+      ("geospatialBBoxAccumulator.accumulatePage", "ReadValues", "leaves-loop"),
+      ("mergedRowGroupRows.ReadRows", "ReadRows", "hands-on"),
+      ("mergedRowGroupRows.ReadRows", "ReadRows", "hands-on"),
+      ("missingPageValues.readWithAdjacent", "ReadValues", "hands-on"),
+      ("optionalPageValues.ReadValues", "ReadValues", "hands-on"),
+      ("printPage", "ReadValues", "swallows"),
+      ("readRowsFuncOfLeaf", "ReadValues", "other:col.reader.ReadValues(buf)"),
+      ("readRowsFuncOfLeaf", "ReadValues", "other:col.reader.ReadValues(buf)"),
+      ("reader.ReadRows", "ReadRows", "hands-on"),
+      ("repeatedPageValues.ReadValues", "ReadValues", "hands-on"),
+      ("rowGroupRows.ReadRows", "ReadValues", "swallows"),
+      ("scanRowReader.ReadRows", "ReadRows", "hands-on"),
+      ("transformRowReader.ReadRows", "ReadRows", "hands-on"),
+      ("variantLeafReader.extractBooleans", "ReadValues", "hands-on")] := by decide
+
 end PqModel.Props.FactsCheckC13
